@@ -63,6 +63,8 @@ class Sim:
         # an entry ending in ".py" makes every function of that source file (path suffix inside the package) hot
         self.hot_files = tuple(h for h in self.hot if h.endswith(".py"))
         self.spin = set(spin)
+        # "file.py:function" entries restrict a busy-wait function to one source file
+        self.spin_q = tuple(tuple(x.split(":", 1)) for x in self.spin if ":" in x)
         self.trace_pkg = trace_pkg or os.path.join(os.environ.get("VF_REPO", "/repo"), "secsgem")
         self.site_counts = {}
         self._spin_last = {}
@@ -168,7 +170,7 @@ class Sim:
     def _global_trace(self, frame, event, arg):
         code = frame.f_code
         name = code.co_name
-        if name in self.spin and code.co_filename.startswith(self.trace_pkg):
+        if code.co_filename.startswith(self.trace_pkg) and (name in self.spin or (self.spin_q and any(name == fn and code.co_filename.endswith(f) for f, fn in self.spin_q))):
             return self._spin_trace
         if (name in self.hot or (self.hot_files and code.co_filename.endswith(self.hot_files))) and code.co_filename.startswith(self.trace_pkg):
             return self._hot_trace
